@@ -14,7 +14,7 @@ from . import value_common as vc
 
 PID = "C08"
 
-LITERALS = ["a", "5", 'a"b', "a'b", "a\\\\b", "a\\\\", "\\\\x41", '" + "', '" * 3 + "', '" if 1 else "', "%s", "{0}", "9**9**9", "x" * 300,
+LITERALS = ["a", "5", "1", 'a"b', "a'b", "a\\\\b", "a\\\\", "\\\\x41", '" + "', '" * 3 + "', '" if 1 else "', "%s", "{0}", "9**9**9", "x" * 300,
             "__import__('os')", "\\n", "1 if 1 else 2", "'; import os; '"]
 CONTEXTS = {
     "concat-left": "t = {lit}\nu = t + 'y'\nk = 1 + 2\n",
@@ -24,6 +24,9 @@ CONTEXTS = {
     "concat-chain-left": "t = {lit}\nw = 'a' + t\nu = w + 'c'\nk = 1 + 2\n",
     "compare": "t = {lit}\nu = t == 'y'\nk = 1 + 2\n",
     "repeat": "t = {lit}\nu = t * 2\nk = 1 + 2\n",
+    # the string's text coincides with the operand text of the unrelated integer fold (k), evaluated after / before it
+    "digits-then-int-fold": "t = {lit}\nu = t + '2'\nk = 1 + 2\n",
+    "int-fold-then-digits": "k = 1 + 2\nt = {lit}\nu = t + '2'\n",
     "passed": "def idf(p):\n    return p\nt = {lit}\nu = idf(t) + 'y'\nk = 1 + 2\n",
     "field": "class O:\n    pass\no = O()\no.f = {lit}\nu = o.f + 'y'\nk = 1 + 2\n",
 }
@@ -95,7 +98,7 @@ def main():
                 rep.feature_violation(bad, set(feats), f"definition of {var} at statement {sid}: concrete values {tvals}, analysis has {ovals}; program:\n{text}",
                                       {"source": text, "stmt": sid, "var": var}, size=size * 1000 + len(text), text=text)
     # (b) hostile literals
-    lits = LITERALS if not quick else LITERALS[:14]
+    lits = LITERALS if not quick else LITERALS[:15]
     cases = [(py_literal(l), c) for l in lits for c in CONTEXTS]
     base = {}
     results = {}
@@ -118,6 +121,7 @@ def main():
                           {"literal": lit, "context": ctx}, size=len(lit), ident=lit)
         real = eval(lit)
         expect = {"concat-left": real + "y", "concat-right": "y" + real, "concat-twice": real + real, "passed": real + "y", "field": real + "y",
+                  "digits-then-int-fold": real + "2", "int-fold-then-digits": real + "2",
                   "concat-chain": real + "bc", "concat-chain-left": "a" + real + "c"}.get(ctx)
         u = res["values"].get("u") or []
         if expect is not None:
